@@ -170,7 +170,9 @@ func checkC09(c TargetCase, r *rec.Rec) error {
 	native := d.Render()
 	var ptext string
 	var perr error
-	if msg, p := jdx.Guard(func() { ptext, perr = mk().RenderPatch() }); p {
+	// The diff is rendered first and the same value is applied natively
+	// afterwards (the order a caller that prints and applies would use).
+	if msg, p := jdx.Guard(func() { ptext, perr = d.RenderPatch() }); p {
 		return rec.Violated("RenderPatch panicked: %s", msg)
 	}
 	mustRefuse, grey := keyExpressibility(hs)
@@ -206,7 +208,10 @@ func checkC09(c TargetCase, r *rec.Rec) error {
 	cls, nontrivial := patchClasses(pv)
 	cls = append(cls, "rendered")
 	// wherever the native diff applies, the JSON Patch applies with the same result
-	out := jdx.Patch(jdx.NodeText(c.C), mk())
+	out := jdx.Patch(jdx.NodeText(c.C), d)
+	if fresh := jdx.Patch(jdx.NodeText(c.C), mk()); fresh.OK() != out.OK() || (out.OK() && fresh.Node.Json() != out.Node.Json()) {
+		return rec.Violated("after RenderPatch the diff no longer acts on %s like a freshly made one: %s vs %s\nnative diff now:\n%s\nbefore:\n%s", c.C, okWord(out), okWord(fresh), d.Render(), native)
+	}
 	if out.OK() {
 		want, err := val.Parse(out.Node.Json())
 		if err != nil {
